@@ -133,7 +133,7 @@ def run_job(job):
             e.pop('names', None)
         rec = {'id': item['id'], 'p': header(sc), 'ev': evs, 'sc': sc, 'seed': seed, 'strategy': strat,
                'status': res.status, 'full': strip(res.trace)[-40:]}
-        if res.status != 'ok' or res.exc is not None:
+        if res.status != 'ok' or res.exc is not None or res.thread_errors:
             rec.update(detail=res.detail, waitmap=res.waitmap, exc=repr(res.exc) if res.exc is not None else None,
                        leftover=res.leftover, thread_errors=res.thread_errors)
             hangs.append(rec)
